@@ -899,3 +899,21 @@ impl Axecutor {
         self.internal_mem_read_128(address)
     }
 }
+
+// Observation points for the external verification harness (only with `--cfg ax_verif`)
+#[cfg(ax_verif)]
+impl Axecutor {
+    /// (start, length, access, data.len(), name) of every memory area, in internal order
+    pub fn verif_area_meta(&self) -> Vec<(u64, u64, u32, usize, Option<String>)> {
+        self.state
+            .memory
+            .iter()
+            .map(|a| (a.start, a.length, a.access, a.data.len(), a.name.clone()))
+            .collect()
+    }
+
+    /// The backing bytes of the memory area with the given internal index
+    pub fn verif_area_data(&self, idx: usize) -> &[u8] {
+        &self.state.memory[idx].data
+    }
+}
